@@ -150,6 +150,15 @@ theorem C26_counterexample_full_small :
   revert this
   decide +kernel
 
+/-- **`C26_full` is false at the real page size**: five inserts of one 2000-byte key (four cells fill a
+    leaf, the fifth splits it) — the lower-bound scan returns three of the five stored pairs -/
+theorem C26_counterexample_full : ¬ C26_full := by
+  intro h
+  have := (h ((List.range 5).map (fun i => Op.insert (List.replicate 2000 0x2e) i))).2.2.1
+    (List.replicate 2000 0x2e)
+  revert this
+  decide +kernel
+
 def k1 (b : UInt8) : Bytes := [b]
 def k25 (b : UInt8) : Bytes := b :: List.replicate 24 0x2e
 
